@@ -192,20 +192,102 @@ def run(ctx):
             viol += 1
             if viol <= 6:
                 ctx.violation(what, {"query": q, "graph": {str(k): v for k, v in g.items()}, "expected": exp, "kind": kind})
+    # ---- closures over DWARF values: units and DIEs are reached along imports, nested and repeated; two
+    # routes to one DIE are two values (the model dw/Forest.v counts the routes), two units are two values
+    # also when they start at the same offset (members of an archive)
+    from vlib import dwforest
+    import os
+    import subprocess
+    ndw = 0
+    # (the forests are those where every value keeps the imports it was reached through: only partial units are
+    #  imported - a DIE of a compile unit that is also imported exists with and without an import chain and the
+    #  two are `==` by design, C09's known finding - and the DIEs of partial units are leaves - `child` of an
+    #  imported DIE does not hand the chain on; elsewhere "distinct" is not settled)
+    from vlib.dwgen import write_object
+    dwd = dwforest.workdir(ctx)
+    frng = ctx.sub_rng("flat-forests")
+    inputs = []
+    for k in range(14 if quick else 120):
+        f_ = dwforest.flat_import_forest(frng)
+        p_ = os.path.join(dwd, "flat%d.o" % k)
+        write_object(f_, p_)
+        inputs.append(("flat%d" % k, f_, p_))
+    for name, f_ in dwforest.shaped_forests():
+        if name in ("deep", "many-units", "hollow", "empty-units", "unit-kinds", "wide-dies", "unclosed-units"):
+            p_ = os.path.join(dwd, name + ".o")
+            write_object(f_, p_)
+            inputs.append((name, f_, p_))
+    models = dwforest.model_rows([f for _, f, _ in inputs])
+    STEP = "(?(type == T_DWARF) unit, ?(type == T_CU) root, ?(type == T_DIE) child)"
+    def dwq(path):
+        return [("[%s*] length" % STEP, "all"), ("[(?(type == T_DWARF) entry)*] length", "entries"), ("[unit root child*] length", "kids"),
+                ("[unit root child* offset]", "offsets"), ("[entry] (|L| [L elem parent* ?root]) length", "roots"), ("[entry (child+, child*)] length", "twice"),
+                ("[%s+] length" % STEP, "plus")]
+    def counts(path):
+        rs = zw.run_cases([zw.enc(q, dw=path, t=30, max=10) for q, _ in dwq(path)])
+        out = {}
+        for (q, k), r in zip(dwq(path), rs):
+            if not r.ok() or not r.results:
+                out[k] = "fails: " + (str(r.crash or r.hard or r.d)[:120])
+            elif k == "offsets":
+                out[k] = sorted(int(v["v"]) for v in r.results[0][0]["v"])
+            else:
+                out[k] = int(r.results[0][0]["v"])
+        return out
+    def expected(ms):
+        routes = sum(len(m["cooked"]) for m in ms)
+        units = sum(len(m["cookedunits"]) for m in ms)
+        nonroot = sum(1 for m in ms for r_ in m["cooked"] if r_["parent"] is not None)
+        return {"all": 1 + units + routes, "entries": 1 + routes, "kids": routes, "offsets": sorted(r_["off"] for m in ms for r_ in m["cooked"]), "roots": routes,
+                "plus": units + routes}
+    def check_dw(name, path, ms, forest_desc):
+        nonlocal ndw, viol
+        got, want = counts(path), expected(ms)
+        for k, w in want.items():
+            ndw += 1
+            if got[k] != w:
+                viol += 1
+                if viol <= 6:
+                    q = [q_ for q_, k_ in dwq(path) if k_ == k][0]
+                    ctx.violation("on the generated input %s `%s` gives %s; every unit once and every DIE once per route makes %s" % (name, q, str(got[k])[:160], str(w)[:160]),
+                                  {"input": name, "file": path, "query": q, "expected": w, "forest": forest_desc, "kind": "dwarf/" + k})
+    for (name, f, path), m in zip(inputs, models):
+        check_dw(name, path, [m], dwforest.describe(f))
+    # archives: the members' units all start at offset 0
+    small = [(n_, p_, m_) for (n_, f_, p_), m_ in zip(inputs, models) if 2 <= len(m_["cooked"]) <= 40]
+    arng = ctx.sub_rng("archives")
+    for k in range(3 if quick else 12):
+        if len(small) < 3:
+            break
+        members = arng.sample(small, arng.choice([2, 3]))
+        ar = os.path.join(os.path.dirname(members[0][1]), "members%d.a" % k)
+        if os.path.exists(ar):
+            os.unlink(ar)
+        if subprocess.run(["ar", "rcS", ar] + [p_ for _, p_, _ in members]).returncode == 0:
+            got, want = counts(ar), expected([m_ for _, _, m_ in members])
+            # (units of different members may show in any order: offsets are compared as multisets already)
+            for kk in ("all", "entries", "kids", "roots", "plus", "offsets"):
+                ndw += 1
+                if got[kk] != want[kk]:
+                    viol += 1
+                    if viol <= 6:
+                        q = [q_ for q_, k_ in dwq(ar) if k_ == kk][0]
+                        ctx.violation("on an archive of %s `%s` gives %s; the members hold %s" % ([n_ for n_, _, _ in members], q, str(got[kk])[:160], str(want[kk])[:160]),
+                                      {"input": "archive", "members": [p_ for _, p_, _ in members], "file": ar, "query": q, "expected": want[kk], "kind": "dwarf-archive/" + kk})
     stats = {"evaluations": 0, "disagreements": 0, "results_hist": {}, "nontrivial": set()}
     sample = qs if not quick else qs[::2]
     for k in range(0, len(sample), 3000):
         compare(ctx, sample[k:k + 3000], stats, "c10")
     common.report_broken_obligations(ctx, oblig, bool(ctx.violations))
     ctx.cov.update({
-        "evaluations": evaluations + stats["evaluations"],
+        "evaluations": evaluations + stats["evaluations"] + ndw,
+        "dwarf_closure_counts": ndw,
         "distinct_nontrivial": len(nontrivial),
-        "rule": "closure bodies generated from graphs (%d graphs: %s 3-node graphs with out-degree <= 2, plus 5-cycle, diamond chain, tree with back edges, self-loop, 2-cycle) in five encodings (`,` in the body, captured sequence + elem, let, if-chain, `||`), every start node, `*` and `+`, several inputs in a row, E E* vs E+, E? vs (E,), stacked postfix operators (E+?, (E+,), E*?, E?*, E?+), the node carried below 1-6 other values, or (acyclic graphs) inside a closure value, nesting ((E*)*, (E+)*, (E*)+); expected = reachability computed on the graph, each node exactly once per input; non-trivial = >= 3 reachable nodes and a multi-successor node; 3 s budget per query; programs also compared with the engine model and the specification" % (len(G), "all" if not quick else "a sample of"),
+        "rule": "closure bodies generated from graphs (%d graphs: %s 3-node graphs with out-degree <= 2, plus 5-cycle, diamond chain, tree with back edges, self-loop, 2-cycle) in five encodings (`,` in the body, captured sequence + elem, let, if-chain, `||`), every start node, `*` and `+`, several inputs in a row, E E* vs E+, E? vs (E,), stacked postfix operators (E+?, (E+,), E*?, E?*, E?+), the node carried below 1-6 other values, or (acyclic graphs) inside a closure value, nesting ((E*)*, (E+)*, (E*)+); expected = reachability computed on the graph, each node exactly once per input; non-trivial = >= 3 reachable nodes and a multi-successor node; 3 s budget per query; programs also compared with the engine model and the specification; + closures over DWARF values on generated forests (nested, repeated and diamond imports of partial units) and on archives of them: unit/root/child closures from the Dwarf value, child* per unit, parent* per DIE against the number of units and routes the forest model counts" % (len(G), "all" if not quick else "a sample of"),
         "samples": [cases[0][0], cases[7][0], cases[-1][0]],
         "groups": dict(kinds), "violations_found": viol,
         "traces_validated_against_impl": stats["evaluations"],
         "spec_comparison": {k[5:]: v for k, v in stats.items() if k.startswith("spec:")},
-        "not_covered": "DWARF graphs (child*, parent*, @AT_type*) are exercised with the DWARF properties",
     })
     return ctx.finish(oblig)
 
